@@ -31,6 +31,11 @@ fn gen_stream(r: &mut Rng) -> Vec<u8> {
             _ => { if r.below(4) == 0 { for _ in 0..1 + r.below(3) { s.extend_from_slice(b"Title: "); s.extend_from_slice(&vec![b'y'; 1000 + r.below(2500)]); s.push(b'\n'); } } s.extend_from_slice(b"OK\n"); }
         }
     }
+    // absurd declared binary lengths (C09)
+    if r.below(12) == 0 {
+        const L: [&[u8]; 6] = [b"18446744073709551615", b"9223372036854775807", b"9223372036854775808", b"18446744073709551616", b"99999999999999", b"4294967296"];
+        s.extend_from_slice(b"binary: "); s.extend_from_slice(L[r.below(L.len())]); s.extend_from_slice(b"\nabc\nOK\n");
+    }
     // truncation / corruption
     match r.below(6) {
         0 => { let n = r.below(s.len() + 1); s.truncate(n); }
